@@ -32,7 +32,8 @@ TRUSTED = [
     "(Python ints are unbounded, the wire field is U32)",
     "MessageHandler.handle / Event.notify are abstracted to 'handle was called once at this level'; the harness checks on the "
     "real objects that this means every matching subscriber (two by-name + one wildcard per level) runs exactly once; "
-    "subscribers are observers (do not call back into the circuit, cancel futures or disconnect)",
+    "subscribers are observers (do not call back into the circuit, cancel futures or disconnect); between the two by-name observers of "
+    "every level sits a pending non-taking MessageHandler.wait_for whose handler unsubscribes itself on the first matching packet",
     "the client only sends Direction.OUT messages and receives Direction.IN ones, so the direction component of the "
     "unacked_reliable key is constant and omitted from the model (the harness checks every key is (OUT, id))",
     "scope of 'received': a datagram counts as received by the endpoint when its source address maps to a region with a circuit "
@@ -151,9 +152,13 @@ class Impl:
         self.region = self.session.register_region(ADDR, None, 5)
         assert self.session.open_circuit(ADDR)
         self.proto = HippoClientProtocol(self.session)
+        self.waits = []
         for lvl, handler in (("S", self.session.message_handler), ("R", self.region.message_handler)):
             for name in ("ChatFromSimulator", "PacketAck", "AgentDropGroup"):
                 handler.subscribe(name, self._sub(lvl, "n1"))
+                # a pending wait_for (non-taking) sits BETWEEN the two observers: its handler unsubscribes itself from inside
+                # its own body when the first such packet arrives - the observers around it must still be notified
+                self.waits.append(handler.wait_for((name,), take=False, timeout=None))
                 handler.subscribe(name, self._sub(lvl, "n2"))
             handler.subscribe("*", self._sub(lvl, "w"))
         self._cache = {}
